@@ -27,6 +27,7 @@ var (
 func (c *Collection) Replay(change commit.Commit) error {
 	return c.Query(func(txn *Txn) error {
 		txn.dirty.Set(uint32(change.Chunk))
+		txn.replay = true // only the commit's own chunk is applied
 		for i := range change.Updates {
 			if !change.Updates[i].IsEmpty() {
 				txn.updates = append(txn.updates, change.Updates[i])
